@@ -10,6 +10,8 @@ import (
 	"net/http"
 	"net/http/httptest"
 	"strings"
+	"sync"
+	"sync/atomic"
 	"testing"
 	"time"
 	"unicode/utf8"
@@ -431,38 +433,56 @@ func TestC13(t *testing.T) {
 	ctx := context.Background()
 	orig, _ := http.NewRequest("POST", "http://x/olla/anthropic/v1/messages", nil)
 	n := rep.Pick(6000, 200000)
-	for i := 0; i < n; i++ {
-		c := genCompletion(rng)
-		sse := renderSSE(rng, c)
-		mode := rng.Intn(4)
-		rec := httptest.NewRecorder()
-		done := make(chan error, 1)
-		go func() {
-			defer func() {
-				if r := recover(); r != nil {
-					done <- fmt.Errorf("panic: %v", r)
+	// The cases are split over 8 workers that share the one translator (as concurrent
+	// requests do in production: its buffer pools and state must not leak between
+	// streams); each worker's case list is determined by the seed.
+	const workers = 8
+	var wg sync.WaitGroup
+	var hung atomic.Bool
+	for wk := 0; wk < workers; wk++ {
+		wg.Add(1)
+		go func(wk int) {
+			defer wg.Done()
+			rng := rand.New(rand.NewSource(seed*1000 + int64(wk)))
+			for i := wk; i < n && !hung.Load(); i += workers {
+				c := genCompletion(rng)
+				sse := renderSSE(rng, c)
+				mode := rng.Intn(4)
+				rec := httptest.NewRecorder()
+				done := make(chan error, 1)
+				go func() {
+					defer func() {
+						if r := recover(); r != nil {
+							done <- fmt.Errorf("panic: %v", r)
+						}
+					}()
+					done <- tr.TransformStreamingResponse(ctx, &cutReader{b: sse, rng: rng, mode: mode}, rec, orig)
+				}()
+				var err error
+				select {
+				case err = <-done:
+				case <-time.After(60 * time.Second):
+					run.Violation("C13/hang", "TransformStreamingResponse did not return within 60 s", map[string]any{"completion": compact(c)})
+					hung.Store(true)
+					return
 				}
-			}()
-			done <- tr.TransformStreamingResponse(ctx, &cutReader{b: sse, rng: rng, mode: mode}, rec, orig)
-		}()
-		var err error
-		select {
-		case err = <-done:
-		case <-time.After(20 * time.Second):
-			run.Violation("C13/hang", "TransformStreamingResponse did not return within 20 s", map[string]any{"completion": compact(c)})
-			run.Finish(t)
-			return
-		}
-		run.Eval(fmt.Sprintf("%s/f=%s/u=%s/g=%s/cut=%d", shape(c), c.Finish, c.Usage, c.Gran, mode))
-		run.Count("stream_cases", 1)
-		if i < 3 {
-			run.Sample(map[string]any{"completion": compact(c), "cut_mode": mode, "sse_bytes": len(sse)})
-		}
-		if err != nil {
-			run.Violation("C13/stream-translation-error", "well-formed backend stream was rejected: "+err.Error(), map[string]any{"completion": compact(c)})
-			continue
-		}
-		judge(run, c, rec.Body.Bytes(), tr, "api", false)
+				run.Eval(fmt.Sprintf("%s/f=%s/u=%s/g=%s/cut=%d", shape(c), c.Finish, c.Usage, c.Gran, mode))
+				run.Count("stream_cases", 1)
+				if i < 3 {
+					run.Sample(map[string]any{"completion": compact(c), "cut_mode": mode, "sse_bytes": len(sse)})
+				}
+				if err != nil {
+					run.Violation("C13/stream-translation-error", "well-formed backend stream was rejected: "+err.Error(), map[string]any{"completion": compact(c)})
+					continue
+				}
+				judge(run, c, rec.Body.Bytes(), tr, "api", false)
+			}
+		}(wk)
+	}
+	wg.Wait()
+	if hung.Load() {
+		run.Finish(t)
+		return
 	}
 	// malformed lines: must neither crash nor hang; the well-formed part must still come out
 	// as a grammatical stream
